@@ -63,13 +63,15 @@ Section Team.
       set (c2 := step G c1 (Book t cap)) in *.
       assert (Hc2 : Inv G c2).
       { apply step_inv; [apply tG_pos| |exact Hc1]. cbn [op_ok]. destruct cap as [m|]; [now apply Hcap|exact I]. }
-      destruct (Qle_bool (G - used c1) tol_avail || Nat.eqb (length (entries c2)) (length (entries c1))) eqn:Eb.
+      destruct (Qle_bool (G - used c1) tol_avail || Nat.eqb (length (entries c2)) (length (entries c1))
+                || negb (tlimits_ok p (sbooked st) t r slot)) eqn:Eb.
       + eapply IH; [|exact H]. apply tset_cell_inv; [exact Hi|exact Hc1|intros _; exact Ew].
-      + destruct (book_members p t off first cap slot tl (set_cell st r slot c2)) as [st2 l2] eqn:E2.
+      + destruct (book_members p t off first cap slot tl (note_booking (set_cell st r slot c2) t r slot)) as [st2 l2] eqn:E2.
         injection H as <- <-.
-        destruct (IH _ _ _ (tset_cell_inv _ _ _ _ Hi Hc2 (fun _ => Ew)) E2) as [A B]. split; [exact A|].
+        assert (Hi2 : TInv (note_booking (set_cell st r slot c2) t r slot)) by exact (tset_cell_inv _ _ _ _ Hi Hc2 (fun _ => Ew)).
+        destruct (IH _ _ _ Hi2 E2) as [A B]. split; [exact A|].
         intros x [<-|Hin]; [|now apply B]. cbn [fst snd]. split; [exact Ew|].
-        apply orb_false_iff in Eb as [Ea _].
+        apply orb_false_iff in Eb as [Eb _]. apply orb_false_iff in Eb as [Ea _].
         assert (Ha : tol_avail < G - used c1) by (apply Qnot_le_lt; intros Hle; apply Qle_bool_iff in Hle; congruence).
         unfold tol_avail in Ha. destruct cap as [m|]; [apply Q.min_glb; [lra|now apply Hcap]|lra].
   Qed.
@@ -95,7 +97,7 @@ Section Team.
   Proof.
     intros He Ho1 Ho2. induction fuel as [|fuel IH]; intros slot done start st st' d Hd1 Hd2 Hi H; cbn [twalk] in H.
     - now injection H as <- _.
-    - destruct ((match team with _ :: _ :: _ => true | _ => false end) && negb (forallb (member_available p st slot) team)).
+    - destruct ((match team with _ :: _ :: _ => true | _ => false end) && negb (team_gate p st t slot (sbooked st) team)).
       + eapply IH; eassumption.
       + set (cap := if match team with _ :: _ :: _ => true | _ => false end
                     then common_secs G (if Qeq_bool done 0 then off else 0) st slot team else None) in *.
